@@ -24,7 +24,7 @@ def _pre(case, ctx):
     return None
 
 
-check_case, run, replay = gfi_hist.make_prop(CFG, CHECKS, kinds=TOP, nontrivial=nontrivial, examples=(8, 8), pre=_pre)
+check_case, run, replay = gfi_hist.make_prop(CFG, CHECKS, kinds=TOP, nontrivial=nontrivial, examples=(6, 6), pre=_pre)
 
 
 def probes(ctx):
